@@ -4,6 +4,7 @@ import (
 	"fmt"
 	"github.com/flosch/pongo2/v6"
 	"runtime"
+	"strings"
 	"sync"
 	"time"
 )
@@ -80,7 +81,84 @@ func c05FirstUse() {
 	wg.Wait()
 }
 
+// c05DeepRecursion: k goroutines execute ONE compiled template whose macro recursion terminates at depth d (k*d far
+// beyond any per-execution bound); a context function at the bottom keeps every goroutine at full depth until all of
+// them arrived (or one gave up). Each must return what it returns alone.
+func c05DeepRecursion(c *C) {
+	r := c.R
+	k := 3 + r.Intn(6)
+	d := r.Pick2([]int{150, 400, 700})
+	imported := r.Bool()
+	lib := "{% macro rec(n, tag) export %}{% if n > 0 %}<{{ rec(n - 1, tag) }}>{% else %}[{{ hold() }}{{ tag }}]{% endif %}{% endmacro %}"
+	files := map[string]string{"/lib.tpl": lib, "/main.tpl": strings.Replace(lib, " export", "", 1) + "{{ rec(d, tag) }}"}
+	if imported {
+		files["/main.tpl"] = "{% import \"/lib.tpl\" rec %}{{ rec(d, tag) }}"
+	}
+	set, _ := newSet(files)
+	tpl, err := set.FromFile("/main.tpl")
+	if err != nil {
+		c.Fail("fresh-compile-failed", D{"files": files, "error": err.Error()})
+		return
+	}
+	want := func(tag string) string {
+		return strings.Repeat("<", d) + "[" + tag + "]" + strings.Repeat(">", d)
+	}
+	if solo, serr := tpl.Execute(pongo2.Context{"d": d, "tag": "solo", "hold": func() string { return "" }}); serr != nil || solo != want("solo") {
+		c.Fail("concurrent-result-differs", D{"files": files, "depth": d, "why": "single execution, no concurrency", "output": q(truncStr(solo, 200)), "error": errStr(serr)})
+		return
+	}
+	var mu sync.Mutex
+	arrived := 0
+	all, abort := make(chan struct{}), make(chan struct{})
+	var abortOnce sync.Once
+	hold := func() string {
+		mu.Lock()
+		arrived++
+		if arrived == k {
+			close(all)
+		}
+		mu.Unlock()
+		select {
+		case <-all:
+		case <-abort:
+		}
+		return ""
+	}
+	type res struct {
+		out string
+		err error
+	}
+	results := make([]res, k)
+	var wg sync.WaitGroup
+	for g := 0; g < k; g++ {
+		wg.Add(1)
+		go func(g int) {
+			defer wg.Done()
+			out, xerr := c01Exec(tpl, pongo2.Context{"d": d, "tag": fmt.Sprintf("g%d", g), "hold": hold}, g%4)
+			results[g] = res{out, xerr}
+			if xerr != nil {
+				abortOnce.Do(func() { close(abort) }) // nobody waits for a goroutine that will never arrive
+			}
+		}(g)
+	}
+	wg.Wait()
+	c.Eval(k)
+	for g, rs := range results {
+		if rs.err != nil || rs.out != want(fmt.Sprintf("g%d", g)) {
+			c.Fail("concurrent-result-differs", D{"files": files, "goroutines": k, "recursion_depth_of_each": d, "imported": imported, "goroutine": g, "output": q(truncStr(rs.out, 200)), "error": errStr(rs.err),
+				"why": "all goroutines were at the bottom of their (terminating) macro recursion at the same moment; alone the execution succeeds"})
+			return
+		}
+	}
+	c.Cover("concurrent_deep_terminating_recursion")
+	c.Nontrivial(fmt.Sprintf("deeprec:%d:%d:%v", k, d, imported))
+}
+
 func c05Run(c *C) {
+	if c.Idx%40 == 13 {
+		c05DeepRecursion(c)
+		return
+	}
 	if c.Idx%5 == 4 {
 		c05RaceOnly(c)
 		return
